@@ -9,23 +9,24 @@ PROPS = {
     "C10": dict(
         family="fmt",
         theorems=T("C10", "run_sat", "parse_no_oob", "parse_terminates", "parse_no_ub", "null_fmt", "outcomes_all_args",
-                   "char_padding_only_assert_partial", "char_padding_assert_raised", "toString_sat", "outcomes_partial", "zero_args"),
-        partial="'the only way it stops the process is the documented char-padding assertion' is proved for argument lists whose floating-point renderings are "
-                "shorter than the library's 64-byte buffer (Arg.FloatFits); for longer renderings the pinned code aborts with 'Format buffer too small' (defect 13, "
-                "property C13). outcomes_all_args is the unconditional statement (every argument list) and lists that message explicitly. A result of 2^28 bytes or more "
-                "trips the documented size-limit assertion of ST::string (named in outcomes_partial). Reads of the real machine are observed by ASan, not proved.",
+                   "char_padding_only_assert", "char_padding_assert_raised", "toString_sat", "outcomes", "zero_args"),
+        partial="nothing is assumed about the length of a floating-point rendering (64 bytes and more go through the heap buffer of the repaired code). Two edges of the "
+                "domain are named in the theorems rather than hidden: a result of 2^28 bytes or more trips the documented size-limit assertion of ST::string (outcomes), "
+                "and libc's snprintf is assumed to report a positive size (Arg.LibcRenders) - glibc breaks that only for a precision of about 2^31, which could only ask for a "
+                "result beyond the 2^28 limit (outcomes_all_args is the statement without that hypothesis). Reads of the real machine are observed by ASan, not proved.",
         rule="every string over the 16-symbol critical alphabet { } _ . & 0 1 9 + - space x c < a \\x80 up to length 4 (quick) / 5 (thorough), each with 0 arguments and "
              "three argument lists drawn from a pool of 16 lists over int, unsigned, long long, char, wchar_t, char16_t, bool, const char*, null const char*, ST::string, "
              "std::string_view, float, double; grammar-directed random format strings (1-3 fields of 0-5 items in any order: flags, '_' + any pad byte, widths incl. numerals "
              "that wrap or saturate, '.'/'&' followed by whitespace / sign / digits / nothing, unknown bytes, unterminated fields; literals with brace escapes and non-UTF-8 bytes) "
-             "with 0-4 arguments of all 23 argument kinds; every prefix of 11 valid format strings with full, short and empty argument lists; the null format string. Routes: "
+             "with 0-4 arguments of all 23 argument kinds; every prefix of 11 valid format strings with full, short and empty argument lists; the null format string; floating-point renderings of 63, 64, 65, 100 and 300+ bytes "
+             "({.61f} {.62f} {.63f} {.100e} {.300} {f} of 1e100 / -1e300 ..., bare and with width / alignment / pad, next to other fields). Routes: "
              "ST::format (default validation), ST::format(validation), ST::format_latin_1 and apply_format into a recording format_writer (exact sink-call sequence); one-argument "
              "calls are made both with the real C++ type and through a user-defined formatter that forwards to the library overload. Each format string is an exact-size heap "
              "block ending in its NUL (ASan). non-trivial = the format string contains a brace",
         exhaustive={"quick": False, "thorough": False},
         exhaustive_note="exhaustive over format strings up to the stated length over the critical alphabet for the sampled argument lists; arbitrary strings are covered by the theorems",
-        assumptions=["floating-point renderings are supplied by the harness from libc (C13); outputs of 2^28 bytes or more (documented string size limit) are not generated",
-                     "the most negative int/long/long long (defect 12, C12) and float renderings of 64 bytes or more (defect 13, C13) are left to those properties"],
+        assumptions=["floating-point renderings are supplied by the harness from libc (C13); outputs of 2^28 bytes or more (documented string size limit) and precisions "
+                     ">= 2^20 are not generated"],
         trusted_base=["strtol(…, 10) is modelled (Fmt.strtol10: C-locale whitespace, sign, digits, saturation, nothing consumed without a digit) and validated against glibc by the correspondence"],
     ),
 }
@@ -35,11 +36,11 @@ PROPS["C11"] = dict(
     theorems=T("C11", "format_outcome_eq_spec", "format_eq_spec", "format_string_eq_spec", "field_eq_spec", "int_eq_spec", "never_truncated_int", "never_truncated_text",
                "length_eq_max_int", "length_eq_max_text", "zero_pad_position", "zero_flag", "sequential_ignores_refs", "escape_braces",
                "literal_verbatim", "char_class_wide"),
-    partial="floating-point arguments: the libc rendering is a parameter (C13) and is assumed to fit the library's 64-byte buffer (Arg.FloatFits); the most negative "
-            "int/long/long long is modelled as the repaired code renders it (defect 12 belongs to C12); wide-string arguments (const wchar_t*/char16_t*/char32_t*) "
+    partial="floating-point arguments: the libc rendering is a parameter (C13) of any length, assumed non-empty (Arg.LibcRenders: snprintf reports a positive size, "
+            "which glibc breaks only for precisions of about 2^31, outside the domain); wide-string arguments (const wchar_t*/char16_t*/char32_t*) "
             "are not modelled; string arguments shorter than 2^31 bytes, fewer than 2^64 arguments",
     rule="cross product alignment {none,<,>} x pad {none, _*, 0, 0 then _*, _* then 0, _0} x width {0, |r|-1, |r|, |r|+1, |r|+2, 40, 70} x '#' x '+' x class "
-         "{default,d,x,X,o,b,c} x &N x 4 item orders over boundary values (0, +-1, min+1, max, digit-count boundaries of each radix, code-point boundaries) of all "
+         "{default,d,x,X,o,b,c} x &N x 4 item orders over boundary values (0, +-1, min, min+1, max, digit-count boundaries of each radix, code-point boundaries) of all "
          "eight integer types + char, wchar_t, char8_t, char16_t, char32_t, bool (quick: a seed-dependent sixth; thorough: all); strings (const char*, ST::string, "
          "std::string, string_view; empty, ASCII, multi-byte, invalid UTF-8) and booleans x alignment x pad x width around the length x precision {none, 0, 1, |t|-1, |t|, "
          "100, '.', negative, whitespace/sign forms, wrapping numeral} x ignored flags; float/double x padding (rendering supplied by libc); seeded random strings "
@@ -49,7 +50,7 @@ PROPS["C11"] = dict(
     assumptions=["readings chosen (DESIGN C11): zero-pad overrides an explicit alignment for integers; for text and booleans '0' only selects the pad character; "
                  "precision is ignored for integers; the character class applies to integer and character arguments only; floating-point arguments are 'rendered by "
                  "libc, then padded' (C13)",
-                 "the most negative int/long/long long (defect 12, C12) is not generated"],
+                 "precisions >= 2^20 are not generated"],
     trusted_base=["strtol(…, 10) is modelled (Fmt.strtol10) and validated against glibc by the correspondence"],
 )
 
@@ -59,10 +60,10 @@ MANIFEST_TEXT = {
              "only indices <= |fmt| (the reader is undefined behind the terminating NUL, so a read there would be the outcome `oob`: parse_no_oob), every loop iteration "
              "including the `end - 1` re-scan after a strtol that consumed nothing strictly advances (parse_terminates: the explicit progress guards never fail), and the "
              "result is output, bad_format, out_of_range, unicode_error, invalid_argument (null format) or the documented char-padding assertion, which is raised exactly "
-             "by a parsed field with class c and a width or pad character on an integer/character argument. Partial: floating-point arguments are assumed to render into "
-             "fewer than 64 bytes (defect 13 belongs to C13; outcomes_all_args is the unconditional variant); results of 2^28 bytes or more hit the documented ST::string size "
-             "limit. Tied to the code by every string over a 16-symbol critical alphabet up to length 4/5, grammar-directed random fields and all prefixes of valid strings, "
-             "through four routes incl. a recording format_writer (exact sink-call sequence), each format string in an exact-size heap block under ASan.",
+             "by a parsed field with class c and a width or pad character on an integer/character argument. Floating-point renderings of any length are covered (64+ bytes "
+             "go through the heap buffer of the repaired code). Domain edge, named in the theorems: a result of 2^28 bytes or more hits the documented ST::string size limit, and "
+             "snprintf is assumed to report a positive size (glibc fails that only for a precision of about 2^31, which could only ask for such a result). Tied to the code by every string over a 16-symbol critical alphabet up to length 4/5, grammar-directed random fields and all prefixes of valid strings, "
+             "floating-point renderings of 63..300+ bytes and the most negative value of every signed type, through four routes incl. a recording format_writer (exact sink-call sequence), each format string in an exact-size heap block under ASan.",
         design_ref="DESIGN.md section 3, C10; notes/C10.md",
         note="Trusted: Lean kernel + 3 standard axioms; Fmt.strtol10 as a model of glibc strtol (validated by the correspondence); float renderings supplied by the harness "
              "from libc; machine-level loads observed by ASan, not proved.",
@@ -73,7 +74,7 @@ MANIFEST_TEXT = {
              "definition over the list of format bytes (literal text with {{ }} reduced, field grammar, left-to-right vs &N selection, sign/prefix/digits, zero padding "
              "between prefix and digits, text cut to precision, UTF-8 of a code point or U+FFFD, pad run of max(0, width - natural length) bytes). Proved through parser = "
              "grammar, scanner = literal splitter, formatter_id = selection and every format_type overload = renderField for all eight integer types (w = 8..64), "
-             "five character types, bool, narrow strings, null strings and floats (libc rendering as a parameter). Corollaries: never truncated, length = max(width, "
+             "five character types, bool, narrow strings, null strings and floats (libc rendering of any length as a parameter). Corollaries: never truncated, length = max(width, "
              "natural), zero-pad position, sequential fields ignore &N, brace escapes. One genuine defect found by this check and repaired: {c} of a 64-bit integer "
              "tested the code-point range after narrowing to int. Tied to the code by the flag cross product over boundary values of every argument type, byte-exact.",
         design_ref="DESIGN.md section 3, C11; notes/C11.md",
